@@ -48,6 +48,17 @@ CLAIMED["C12"] = ("shape rules on the retry driver's loop (phi of the timeout, l
          "produces that error, that each try transmits once msg.ToBytes() to dest on the client's conn, that the message is only read between tries, and that the internal error is mapped to ErrNoResponse. "
          "Actual instants are not decided; hence 'other'.", CLIENT_NOTE, "§5 C12")
 
+CLAIMED["C03"] = ("panic-obligation enumeration over the SSA of the decode/read-only call-graph closure; discharge by the Go compiler's prove pass (check_bce diagnostics), dominating-guard rules, parser/accessor tables, nil rules; ledger with machine-checked guard facts; loop and recursion audit",
+         "Every panic-capable instruction (index, slice, single-value type assertion, explicit panic, integer division, negative make/Lexer/Repeat size, nil-map store, dereference of a maybe-nil call result, "
+         "pointer field a decoder may leave nil) in the closure of all decode entry points, all exported read-only methods/helpers and the raw-frame reader is enumerated on the current tree and must be closed by a "
+         "mechanical rule or by a ledger entry (spec/ledger.json) whose guard facts are re-checked on every run; every loop must be a range/Lexer-progress/counter loop or ledgered; recursion cycles must belong to the frozen families. "
+         "Decides the enumerated panic classes on all paths, not the absence of every crash (see DESIGN §5 C03 'does not decide'); hence 'other'.",
+         "Ledger entries marked 'assumption' carry a reason but no machine-checked fact; they are counted in the evidence.", "§5 C03, §4 E4/E7")
+CLAIMED["C18"] = ("panic obligations of the reader (as C03) + CFG guard rules and value provenance on ReadFrom; constant-offset store extraction of the IPv4/UDP encoders compared with an RFC 791/768 table; call-order rule for the checksum fields",
+         "Reader: frame-size fact (isValid gets the byte count under the Lexer), isValid's guard set, every rejecting guard skips the frame, delivery requires each guard, payload length derives from the IP total length, source address provenance. "
+         "Writer: offset/width/value of every header store against the RFC layout, getter/setter offset agreement, field values of udp4pkt (20+8+len, 17, 8+len, ports/addresses), header/payload order, checksum fields written last from the complemented sum. "
+         "Does NOT decide that the checksum arithmetic verifies under RFC 1071 (runtime arithmetic) nor arrival-order claims; hence 'other'.", "", "§5 C18")
+
 NA_REASON = {}
 
 def main():
